@@ -195,6 +195,14 @@ def match_known(known, prop, *sigs):
     return None
 
 
+def _known_hit(hits, kf, sig, runs, replay):
+    h = hits.setdefault(id(kf), {'kf': kf, 'sigs': [], 'runs': 0, 'replay': None})
+    h['sigs'].append(sig)
+    h['runs'] += runs
+    if h['replay'] is None and replay is not None:
+        h['replay'] = str(replay)
+
+
 def run_checks(a):
     from sim.kernel import H  # pylint: disable=import-outside-toplevel
     from sim.registry import BUDGET, ENGINES  # pylint: disable=import-outside-toplevel
@@ -276,6 +284,7 @@ def run_checks(a):
     # -- violations: minimise, verify in a fresh interpreter, classify -------
     known, _fixed = load_known()
     verdict_lines = []
+    known_hits = {}
     n_new = 0
     by_sig = {}
     for v in raw_violations:
@@ -288,7 +297,7 @@ def run_checks(a):
             if kf0 is not None:
                 confirmed.append({'sig': sig, 'replay': None, 'count': len(vs), 'known': True,
                                   'detail': vs[0]['violation']['detail'][:500]})
-                verdict_lines.append(f'KNOWN-FINDING: property={a.prop} {kf0["what"]} [sig={sig}; {len(vs)} runs]')
+                _known_hit(known_hits, kf0, sig, len(vs), None)
                 continue
             harness_errors.append({'error': f'violation {sig} has no raw replay'})
             continue
@@ -297,12 +306,14 @@ def run_checks(a):
         kf0 = match_known(known, a.prop, sig)
         if kf0 is not None:
             # a listed finding: no need to minimise it again on every run; keep the raw trace as replay
-            keep = VERIF / 'replays' / f'{a.prop}-known-{cand["run_seed"]:016x}.json'
-            os.replace(cand['raw'], keep)
-            confirmed.append({'sig': sig, 'replay': str(keep), 'count': len(vs), 'known': True,
+            keep = None
+            if id(kf0) not in known_hits or known_hits[id(kf0)]['replay'] is None:
+                # one replay per listed finding is enough
+                keep = VERIF / 'replays' / f'{a.prop}-known-{cand["run_seed"]:016x}.json'
+                os.replace(cand['raw'], keep)
+            confirmed.append({'sig': sig, 'replay': str(keep) if keep else None, 'count': len(vs), 'known': True,
                               'detail': cand['violation']['detail'][:500]})
-            verdict_lines.append(f'KNOWN-FINDING: property={a.prop} {kf0["what"]} [sig={sig}; {len(vs)} runs; '
-                                 f'replay={keep}]')
+            _known_hit(known_hits, kf0, sig, len(vs), keep)
             continue
         minp = VERIF / 'replays' / f'{a.prop}-{cand["run_seed"]:016x}.json'
         lf = open(tmp / 'minimise.log', 'a')  # pylint: disable=consider-using-with
@@ -335,12 +346,17 @@ def run_checks(a):
         confirmed.append({'sig': sig, 'replay': str(minp), 'count': len(vs), 'known': bool(kf),
                           'detail': cand['violation']['detail'][:500]})
         if kf:
-            verdict_lines.append(f'KNOWN-FINDING: property={a.prop} {kf["what"]} [sig={sig}; '
-                                 f'{len(vs)} runs; replay={minp}]')
+            _known_hit(known_hits, kf, sig, len(vs), minp)
         else:
             n_new += 1
             verdict_lines.append(f'VIOLATION property={a.prop} replay={minp}')
             verdict_lines.append(f'  class={sig} runs={len(vs)} detail={cand["violation"]["detail"][:400]}')
+
+    # one line per listed finding, however many signatures of this run it covers
+    for h in known_hits.values():
+        more = f' (+{len(h["sigs"]) - 1} more signatures)' if len(h['sigs']) > 1 else ''
+        verdict_lines.append(f'KNOWN-FINDING: property={a.prop} {h["kf"]["what"]} [sig={h["sigs"][0]}{more}; '
+                             f'{h["runs"]} runs; replay={h["replay"]}]')
 
     # -- evidence -------------------------------------------------------------
     wall = time.time() - t0
